@@ -1,4 +1,295 @@
-import Kap.Basic
+/-
+Driver for C18: reads the cases printed by harness/c18 (which recorded and replayed with the REAL kapacitor code),
+and judges for each case
+  * the property itself (Spec/C18.lean) on the OBSERVED deliveries — first, so that a violation is reported as such;
+    a violation that is exactly one of the recorded deviation clauses is reported as KNOWN <key>;
+  * observed = model (Model/C18.lean `streamRoundTrip` / `batchRoundTrip`), the tie.
+-/
+import Kap.Spec.C18
+open Kap Kap.C18
 
-/-- Driver for property C18 (replaced by the property's driver). -/
-def main : IO Unit := Kap.driverMain (fun _ _ => .badop "driver not implemented")
+namespace Kap.C18.Drv
+
+def hexNat (s : String) : Option Nat :=
+  if s.isEmpty then none else
+  s.toList.foldl (fun acc c => match acc, hexVal c with | some n, some d => some (n * 16 + d) | _, _ => none) (some 0)
+
+def bytesTok (t : String) : Option Bytes := unescRaw t
+
+def escBytes (b : Bytes) : String := if b.isEmpty then "%" else b.foldl (fun acc x => acc ++ escByte x) ""
+
+def parseTags (t : String) : Option Tags :=
+  if t == "-" then some [] else
+  (t.splitOn ",").mapM (fun kv => match kv.splitOn "=" with
+    | [k, v] => do pure ((← bytesTok k), (← bytesTok v))
+    | _ => none)
+
+/-- value token → value (+ the float text, when it is a float: the `strconv` oracle). -/
+def parseFV (t : String) : Option (FV × Option (Nat × Bytes)) :=
+  match t.splitOn "~" with
+  | ["f", bits, txt] => do let b ← hexNat bits; let x ← bytesTok txt; pure (.float b, some (b, x))
+  | ["i", v] => do pure (.int (← v.toInt?), none)
+  | ["s", s] => do pure (.str (← bytesTok s), none)
+  | ["b", "1"] => some (.bool true, none)
+  | ["b", "0"] => some (.bool false, none)
+  | _ => none
+
+def parseFields (t : String) : Option (Fields × List (Nat × Bytes)) :=
+  if t == "-" then some ([], []) else do
+  let kvs ← (t.splitOn ",").mapM (fun kv => match kv.splitOn "=" with
+    | [k, v] => do let k ← bytesTok k; let (x, o) ← parseFV v; pure ((k, x), o)
+    | _ => none)
+  pure (kvs.map (·.1), kvs.filterMap (·.2))
+
+/-- time token; a trailing `L` marks a time that is not in UTC. -/
+def parseTime (t : String) : Option (Int × Bool) :=
+  if t.endsWith "L" then (t.dropEnd 1).toString.toInt?.map (fun v => (v, true)) else t.toInt?.map (fun v => (v, false))
+
+def parseNames (t : String) : Option (List Bytes) := if t == "-" then some [] else (t.splitOn ",").mapM bytesTok
+
+def sortedKeys {α} (l : List (Bytes × α)) : Bool :=
+  match l with
+  | [] => true
+  | x :: rest => (rest.foldl (fun (acc : Bool × Bytes) kv => (acc.1 && decide (acc.2 < kv.1), kv.1)) (true, x.1)).1
+
+def mkCodec (tbl : List (Nat × Bytes)) : FloatCodec :=
+  { fmt := fun b => (tbl.lookup b).getD [],
+    parse := fun s => (tbl.find? (fun e => e.2 == s)).map (·.1) }
+
+def multOf (prec : String) : Int :=
+  if prec == "u" then 1000 else if prec == "ms" then 1000000 else if prec == "s" then 1000000000
+  else if prec == "m" then 60000000000 else if prec == "h" then 3600000000000 else 1
+
+def parseStatus (t : String) : Option Status :=
+  if t == "ok" then some .ok else if t == "err" then some .err else if t == "panic" then some .panic else none
+
+structure St where
+  mode : String := ""
+  recTime : Bool := false
+  zero : Int := 0
+  prec : String := "n"
+  pts : List SPoint := []                              -- reversed
+  pgroups : List (Bytes × Bool × List Bytes) := []     -- reversed
+  bs : List Batch := []                                -- reversed
+  bgroups : List (Bytes × List Bytes) := []            -- reversed
+  oracle : List (Nat × Bytes) := []
+  nonUTC : Bool := false
+
+def parseDimTok (t : String) : Option (Bool × List Bytes) :=
+  match t.splitOn ":" with
+  | [b, names] => do pure (b == "1", (← parseNames names))
+  | _ => none
+
+/-- stream item `db|rp|name|tags|fields|time|group|dims|until` -/
+def parseSItem (t : String) : Option (SPoint × (Bytes × Bool × List Bytes) × Option Int × List (Nat × Bytes) × Bool) :=
+  match t.splitOn "|" with
+  | [db, rp, name, tags, fields, time, group, dims, u] => do
+    let (fs, orc) ← parseFields fields
+    let (tm, l) ← parseTime time
+    let (bn, dn) ← parseDimTok dims
+    let u ← (if u == "-" then some none else (parseTime u).map (fun x => some x.1))
+    pure (⟨← bytesTok db, ← bytesTok rp, ← bytesTok name, ← parseTags tags, fs, tm⟩, (← bytesTok group, bn, dn), u, orc, l)
+  | _ => none
+
+def parseBPoint (t : String) : Option (BPoint × Bool) :=
+  match t.splitOn "!" with
+  | [tags, fields, time] => do
+    let (fs, _) ← parseFields fields
+    let (tm, l) ← parseTime time
+    pure (⟨← parseTags tags, fs, tm⟩, l)
+  | _ => none
+
+def parseBPoints (t : String) : Option (List BPoint × Bool) :=
+  if t == "-" then some ([], false) else do
+  let ps ← (t.splitOn ";").mapM parseBPoint
+  pure (ps.map (·.1), ps.any (·.2))
+
+/-- batch item `name|byname|tmax|tags|group|dims|points|until|sizehint` -/
+def parseBItem (t : String) : Option (Batch × (Bytes × List Bytes) × Option Int × Nat × Bool) :=
+  match t.splitOn "|" with
+  | [name, bn, tmax, tags, group, dims, pts, u, sh] => do
+    let (tm, l1) ← parseTime tmax
+    let (ps, l2) ← parseBPoints pts
+    let u ← (if u == "-" then some none else (parseTime u).map (fun x => some x.1))
+    pure (⟨← bytesTok name, bn == "1", tm, ← parseTags tags, ps⟩, (← bytesTok group, ← parseNames dims), u, ← sh.toNat?, l1 || l2)
+  | _ => none
+
+def firstDiff {α} [BEq α] (a b : List α) : Nat :=
+  let rec go : List α → List α → Nat → Nat
+    | x :: xs, y :: ys, i => if x == y then go xs ys (i + 1) else i
+    | _, _, i => i
+  go a b 0
+
+def statusStr : Status → String | .ok => "ok" | .err => "err" | .panic => "panic"
+
+def strNeedsEsc (s : Bytes) : Bool := s.any (fun c => c == DQ || c == BS || c == COMMA || c == SP || c == EQ)
+
+def big53 (v : Int) : Bool := v.natAbs > 9007199254740992
+
+def addBr (brs : List String) (b : String) : List String := if brs.contains b then brs else brs ++ [b]
+
+def shiftBr (recTime : Bool) (zero : Int) (first : Option Int) : List String :=
+  (if recTime then ["rec-time"] else ["shift-time"]) ++
+  (match first with
+   | some f => if zero > f then ["offset-pos"] else if zero < f then ["offset-neg"] else ["offset-zero"]
+   | none => ["no-items"])
+
+def judgeStream (st : St) (obs : List String) : Verdict := Id.run do
+  let recorded := st.pts.reverse
+  let recGroups := st.pgroups.reverse
+  let some status := obs.head?.bind parseStatus | return .badop s!"status {obs.head?}"
+  if obs.head? == some "recerr" then return .badop "recerr"
+  let some closes := (obs.getD 1 "").toNat? | return .badop "closes"
+  let some closedAt := (obs.getD 2 "").toNat? | return .badop "closedAt"
+  let some items := (obs.drop 3).mapM parseSItem | return .badop "stream item"
+  let o : SObs := { status := status, closes := closes, closedAt := closedAt, items := items.map (·.1), groups := items.map (·.2.1) }
+  let nonUTC := items.any (·.2.2.2.2)
+  let F := mkCodec (st.oracle ++ items.flatMap (·.2.2.2.1))
+  let mult := multOf st.prec
+  -- 1. the property on the observed deliveries
+  let dev := firstDev recorded 0
+  -- precision coarser than ns truncates on purpose: compare against the truncated times
+  let recordedP := if mult == 1 then recorded else recorded.map (fun p => { p with time := p.time.tdiv mult * mult })
+  let mut known : Option String := none
+  match specStream st.recTime recordedP recGroups o with
+  | none => pure ()
+  | some clause =>
+    match dev with
+    | none => return .specfail clause s!"status={statusStr status} items={items.length}/{recorded.length} first-diff={firstDiff recordedP o.items}"
+    | some (k, key) =>
+      match specStreamDev st.recTime recordedP recGroups o k key with
+      | some c2 => return .specfail c2 s!"deviation {key} at point {k} does not explain: status={statusStr status} items={items.length}"
+      | none => known := some key
+  -- 2. the tie: model = observed
+  let m := streamRoundTrip F mult st.zero st.recTime recorded
+  let obsItems : List SOut := items.map (fun it => ⟨it.1, it.2.2.1.getD 0⟩)
+  let mut brs : List String := ["stream"] ++ shiftBr st.recTime st.zero (recorded.head?.map (·.time))
+  let exact := m.status == status && m.items == obsItems && m.closes == closes && m.closedAt == closedAt
+        && items.all (fun it => it.2.2.1.isSome) && !nonUTC
+        && items.all (fun it => it.2.1 == (([] : Bytes), false, ([] : List Bytes)))
+  if !exact then
+    match dev with
+    | some (k, _) =>
+      if m.items.take k == obsItems.take k && closes == 1 && closedAt == items.length then brs := addBr brs "dev-prefix-only"
+      else return .mismatch s!"deviating input, prefix {k}: model items {m.items.length} observed {items.length} first-diff {firstDiff m.items obsItems}"
+    | none =>
+      return .mismatch s!"model status={statusStr m.status} items={m.items.length} observed status={statusStr status} items={items.length} first-diff={firstDiff m.items obsItems} nonUTC={nonUTC}"
+  else if dev.isSome then brs := addBr brs "dev-exact"
+  -- branches of the model that this case went through
+  let (fs, okF) := readFrames maxTok (record F mult recorded)
+  if !okF then brs := addBr brs "frames-error"
+  if fs.length != recorded.length then brs := addBr brs "frames-recount"
+  if recorded.any (fun p => p.tags.isEmpty) then brs := addBr brs "no-tags"
+  if recorded.any (fun p => p.tags.length ≥ 2) then brs := addBr brs "many-tags"
+  if recorded.any (fun p => strNeedsEsc p.name || p.tags.any (fun kv => strNeedsEsc kv.1 || strNeedsEsc kv.2)) then brs := addBr brs "key-escapes"
+  if recorded.any (fun p => p.fields.any (fun kv => strNeedsEsc kv.1)) then brs := addBr brs "fieldkey-escapes"
+  for k in [0, 1, 2, 3] do
+    if recorded.any (fun p => p.fields.any (fun kv => kv.2.kind == k)) then brs := addBr brs s!"kind{k}"
+  if recorded.any (fun p => p.fields.any (fun kv => match kv.2 with | .str s => s.any (fun c => c == DQ || c == BS) | _ => false)) then brs := addBr brs "string-escapes"
+  if recorded.any (fun p => p.fields.any (fun kv => match kv.2 with | .int v => big53 v | _ => false)) then brs := addBr brs "int-beyond-2^53"
+  if recorded.any (fun p => p.time < 0) then brs := addBr brs "negative-time"
+  if mult != 1 then brs := addBr brs "coarse-precision"
+  if mult != 1 && recorded.any (fun p => p.time.tdiv mult * mult != p.time) then brs := addBr brs "precision-truncates"
+  if (recorded.zip (recorded.drop 1)).any (fun pq => pq.1.time == pq.2.time) then brs := addBr brs "equal-times"
+  if (recorded.zip (recorded.drop 1)).any (fun pq => pq.1.time > pq.2.time) then brs := addBr brs "time-backwards"
+  if recorded.any (fun p => endsCR p.db || endsCR p.rp) then brs := addBr brs "cr-dropped"
+  if recorded.any (fun p => (lineOf F mult p).length ≥ maxTok) then brs := addBr brs "line-too-long"
+  if recorded.any (·.hashName) then brs := addBr brs "comment-line"
+  match known with
+  | some key => return .known key s!"first affected point {(dev.map (·.1)).getD 0}; status={statusStr status} delivered={items.length}/{recorded.length}"
+  | none =>
+    let nt := recorded.length ≥ 2 && (brs.contains "key-escapes" || brs.contains "string-escapes" || brs.contains "int-beyond-2^53")
+    return .ok nt brs
+
+def judgeBatch (st : St) (obs : List String) : Verdict := Id.run do
+  let recorded := st.bs.reverse
+  let recGroups := st.bgroups.reverse
+  let some status := obs.head?.bind parseStatus | return .badop s!"status {obs.head?}"
+  let some closes := (obs.getD 1 "").toNat? | return .badop "closes"
+  let some closedAt := (obs.getD 2 "").toNat? | return .badop "closedAt"
+  let some items := (obs.drop 3).mapM parseBItem | return .badop "batch item"
+  let o : BObs := { status := status, closes := closes, closedAt := closedAt, items := items.map (·.1), groups := items.map (·.2.1) }
+  let nonUTC := items.any (·.2.2.2.2)
+  -- 1. the property on the observed deliveries, or exactly the recorded deviations
+  let (keys, expected) := batchDevs recorded
+  let expGroups := if keys.contains "batch-empty-skipped" then devGroups recorded recGroups else recGroups
+  match specBatch st.recTime recorded recGroups o with
+  | none => pure ()
+  | some clause =>
+    if keys.isEmpty then
+      return .specfail clause s!"status={statusStr status} batches={items.length}/{recorded.length} first-diff={firstDiff recorded o.items}"
+    match specBatch st.recTime expected expGroups o with
+    | some c2 => return .specfail c2 s!"deviations {keys} do not explain: status={statusStr status} batches={items.length}/{expected.length} first-diff={firstDiff expected o.items}"
+    | none => pure ()
+  -- 2. the tie
+  let m := batchRoundTrip true st.zero st.recTime recorded
+  let obsItems : List BOut := items.map (fun it => ⟨it.1, it.2.2.1.getD 0⟩)
+  let metaOK := items.all (fun it =>
+    it.2.2.1.isSome && it.2.2.2.1 == it.1.points.length &&
+    it.2.1 == (groupID it.1.name it.1.byName it.1.tags, it.1.tags.map (·.1)))
+  if !(m.status == status && m.items == obsItems && m.closes == closes && m.closedAt == closedAt && metaOK && !nonUTC) then
+    return .mismatch s!"model batches={m.items.length} observed status={statusStr status} batches={items.length} first-diff={firstDiff m.items obsItems} meta={metaOK} nonUTC={nonUTC}"
+  let first := (readBatches recorded).head?.bind (fun b => b.points.head?.map (·.time))
+  let mut brs : List String := ["batch"] ++ shiftBr st.recTime st.zero first
+  if recorded.length ≥ 2 then brs := addBr brs "many-batches"
+  if (recorded.map (fun b => b.tags)).eraseDups.length ≥ 2 then brs := addBr brs "many-groups"
+  if recorded.any (·.byName) then brs := addBr brs "by-name"
+  if recorded.any (fun b => b.tags.isEmpty) then brs := addBr brs "no-tags"
+  if recorded.any (fun b => !b.wfTmax) then brs := addBr brs "tmax-before-last-point"
+  if recorded.any (fun b => b.points.any (fun p => p.time == b.tmax)) then brs := addBr brs "tmax-equals-last"
+  for k in [0, 1, 2, 3] do
+    if recorded.any (fun b => b.points.any (fun p => p.fields.any (fun kv => kv.2.kind == k))) then brs := addBr brs s!"kind{k}"
+  if recorded.any (fun b => b.points.any (fun p => p.fields.any (fun kv => match kv.2 with | .int v => big53 v | _ => false))) then brs := addBr brs "int-beyond-2^53"
+  for k in keys do brs := addBr brs s!"dev:{k}"
+  match keys with
+  | key :: _ =>
+    if (specBatch st.recTime recorded recGroups o).isNone then return .ok true brs
+    return .known key s!"deviations {keys}; delivered {items.length}/{recorded.length} batches"
+  | [] =>
+    let nt := recorded.length ≥ 1 && recorded.any (fun b => b.points.length ≥ 2)
+    return .ok nt brs
+
+def judge (_id : String) (lines : Array String) : Verdict := Id.run do
+  let mut st : St := {}
+  for l in lines do
+    let (opT, obs) := splitObs (tokens l)
+    match opT with
+    | ["stream", r, z, p] =>
+      let some z := z.toInt? | return .badop l
+      st := { st with mode := "stream", recTime := r == "1", zero := z, prec := p }
+    | ["batch", r, z] =>
+      let some z := z.toInt? | return .badop l
+      st := { st with mode := "batch", recTime := r == "1", zero := z }
+    | ["pt", db, rp, name, tags, fields, time] =>
+      let some p := (do
+        let (fs, orc) ← parseFields fields
+        let (tm, _) ← parseTime time
+        let pt : SPoint := ⟨← bytesTok db, ← bytesTok rp, ← bytesTok name, ← parseTags tags, fs, tm⟩
+        pure (pt, orc)) | return .badop l
+      if !(sortedKeys p.1.tags && sortedKeys p.1.fields) then return .badop s!"unsorted or duplicate keys: {l}"
+      let some g := (match obs with
+        | [g, d] => do let (bn, dn) ← parseDimTok d; pure ((← bytesTok g), bn, dn)
+        | _ => none) | return .badop s!"pt observation {l}"
+      st := { st with pts := p.1 :: st.pts, pgroups := g :: st.pgroups, oracle := st.oracle ++ p.2 }
+    | ["b", name, bn, tmax, tags, pts] =>
+      let some b := (do
+        let (tm, _) ← parseTime tmax
+        let (ps, _) ← parseBPoints pts
+        let b : Batch := ⟨← bytesTok name, bn == "1", tm, ← parseTags tags, ps⟩
+        pure b) | return .badop l
+      if !(sortedKeys b.tags && b.points.all (fun p => sortedKeys p.tags && sortedKeys p.fields)) then return .badop s!"unsorted or duplicate keys: {l}"
+      let some g := (match obs with
+        | [g, d] => do pure ((← bytesTok g), (← parseNames d))
+        | _ => none) | return .badop s!"b observation {l}"
+      st := { st with bs := b :: st.bs, bgroups := g :: st.bgroups }
+    | ["replay"] =>
+      if obs.head? == some "recerr" then return .badop s!"the recorder reported an error: {l}"
+      if obs.head? == some "hang" then return .specfail "ends-after-last" "the replay did not finish (hang)"
+      if obs.head? == some "panic" then return .specfail "replay-succeeds" "the replay panicked"
+      return (if st.mode == "stream" then judgeStream st obs else judgeBatch st obs)
+    | _ => return .badop l
+  return .badop "case without replay"
+
+end Kap.C18.Drv
+
+def main : IO Unit := Kap.driverMain Kap.C18.Drv.judge
